@@ -131,6 +131,8 @@ const REPLACEMENTS: &[&str] = &["END", ";", "42", "-0.5", "0", "0.0", "-0", ".0"
     "79228162514264337593543950335", "-79228162514264337593543950335", "99999999999999999999999999999", "7922816251426433759354395033.5", "0.0000000000000000000000000001", "123456789012345678901234567890123456789",
     // more decimals than the type has digits, with few significant ones
     "0.00000000000000000000000000000", "0.00000000000000000000000000001", "-1.000000000000000000000000000000", "0.0000000000000000000000000000000000000000001",
+    // bus-bit delimiters the wrong way round, doubled, or alone in a name
+    "d]3[", "d][", "a>b<c", "d|3", "d[]", "]", "\"][\"", "\"||\"", "\"[[\"", "BUSBITCHARS", "DIVIDERCHAR",
     // string literals with a backslash in front of a quote, an ASCII letter, a multi-byte character, the end of the text
     "\"D:\\设计\"", "\"\\😀\" \"b\"", "\"x\\→", "\"a\\\"b\"", "\"C:\\проекты\\ячейки\"", "\"\\",
     // words of few characters but many bytes (keyword lookup works on the text of the token)
